@@ -163,6 +163,26 @@ INFO = {
  "C19-m8": ("KyG insolation factors stored by unchecked index", "the leading index of a factor line replaced by 9 or more"),
  "C20-m7": ("sun azimuth discriminator loses cos(declination)", "hour angles next to the due-east/west crossing in summer"),
  "C20-m8": (".met rows numbered with a leap reference year", "any date from 1 March on"),
+ "C01-m9": ("parsed projects cached by (path, byte length) in parse_with_catalog_from_path", "the same path converted twice in one process with a same-length edit in between"),
+ "C01-m10": ("occupancy years indexed without the length guard (panic in the tool's indicator stage)", "two occupied spaces whose people schedules expand to different day counts"),
+ "C02-m9": ("used glasses / frames only collected when the frame fraction is below 1 / above 0", "a used GAP with PORCENTAGE = 100 (or 0) whose glass (frame) nobody else uses"),
+ "C02-m10": ("explicit SYSTEM-CONDITIONS check skipped for non-conditioned spaces", "an UNHABITED space naming an undefined SYSTEM-CONDITIONS block"),
+ "C03-m9": ("shade corner points read in lexicographic key order", "a vertex-defined shade with 10 or more corners"),
+ "C03-m10": ("window offset (0,0) treated as no coordinates", "a WINDOW with X = 0 and Y = 0"),
+ "C05-m9": ("per-thread cache of yearly-schedule averages keyed by schedule id", "two models in one thread with the same yearly-schedule id and different day values"),
+ "C05-m10": ("one name->id map for yearly, weekly and daily schedules", "a schedule name reused across kinds"),
+ "C11-m9": ("reference area requires a loads profile", "a habitable inside space with loads = None"),
+ "C11-m10": ("parser tilt classifier rounds to two decimals", "a tilt within 0.005 degrees of a class limit"),
+ "C12-m9": ("design-day hours below 20 W/m2 dropped from the mean", "an obstructed window in a zone whose July table has such an hour (six Canary zones)"),
+ "C12-m10": ("hits closer than 5 cm to the ray origin ignored", "a set-back window less than 0.5 m high or wide"),
+ "C14-m9": ("category mean U computed when the category has an element, not area", "a K category whose every element is fully glazed"),
+ "C14-m10": ("direct irradiance loses its NaN-absorbing max", "a window plane whose normal points exactly at an hourly July sun position"),
+ "C16-m9": ("schedules of a thermostat with only one set-point treated as unused", "a kept thermostat with only temp_min or only temp_max"),
+ "C16-m10": ("glazings and frames not purged when no window construction is left", "a model without windows that carries a glazing library"),
+ "C18-m9": ("written perteneceALaEnvolventeTermica = NO overridden by the legacy default", "a CONDITIONED space written with NO"),
+ "C18-m10": ("KyG orientation O translated only when alone", "a Ventana line with orientation SO or NO"),
+ "C19-m9": ("zone name upper-cased by slicing [..1]", "the weather-file line deleted or without the zona marker (empty name)"),
+ "C19-m10": ("field-count guard of KyG window lines confuses index and count", "a KyG file truncated inside the 10th field of a Ventana line"),
 }
 res = {}
 try:
